@@ -9,7 +9,7 @@ use kira::Capacities;
 
 const VALS: &[f32] = &[
 	0.0, -0.0, 1.0, -1.0, 0.5, -0.5, 0.25, 2.0, -2.0, 1.5, -1.5, 0.99999994, 1.0000001, -1.0000001, 1e-40, 3.4e38, -3.4e38,
-	0.1, 0.3, -0.7, 100.0,
+	0.1, 0.3, -0.7, 100.0, f32::INFINITY, f32::NEG_INFINITY, f32::NAN,
 ];
 
 pub fn gen(rng: &mut Rng, n: usize, _thorough: bool, stats: &mut Stats) -> Vec<String> {
